@@ -42,6 +42,7 @@ fn main() {
     }
     match args[1].as_str() {
         "check" if args.len() >= 4 => {
+            util::protect_stdout();
             let ctx = make_ctx(&args[2], &args[3]);
             std::process::exit(checks::run_check(&ctx));
         }
